@@ -257,14 +257,22 @@ theorem nestedBound_immutable (O : Oracles) (c : ClassOpts) (fields : List (Stri
   · simp [hi]
 
 /-- on an immutable structure no operation changes the state, whichever way nested wrappers are bound -/
-theorem immutable_stepB_state (bound : Bool) (tbl : List MethodRec) (O : Oracles) (c : ClassOpts)
+theorem immutable_stepB_state (bound dh : Bool) (tbl : List MethodRec) (O : Oracles) (c : ClassOpts)
     (fields : List (String × FieldDecl)) (s : Attrs) (op : Op)
     (hi : c.immutable = true) (htbl : GuardedTbl tbl = true) :
-    (stepB bound tbl O c fields s op).1 = s := by
+    (stepB bound dh tbl O c fields s op).1 = s := by
+  have hdel : ∀ f, (delitemStepH dh O c s f).1 = s := by
+    intro f
+    unfold delitemStepH
+    rw [delitem_immutable c s f hi]
+    cases dh <;> rfl
   cases bound with
   | false =>
-    have : stepB false tbl O c fields s op = step tbl O c fields s op := by cases op <;> rfl
-    rw [this]; exact immutable_step_state tbl O c fields s op hi htbl
+    cases op with
+    | delitem f => exact hdel f
+    | setattr f v => exact immutable_step_state tbl O c fields s (.setattr f v) hi htbl
+    | call f m => exact immutable_step_state tbl O c fields s (.call f m) hi htbl
+    | callNested f k m => exact immutable_step_state tbl O c fields s (.callNested f k m) hi htbl
   | true =>
     cases op with
     | callNested f k m =>
@@ -283,20 +291,29 @@ theorem immutable_stepB_state (bound : Bool) (tbl : List MethodRec) (O : Oracles
         · rfl
       · rfl
     | setattr f v => exact immutable_step_state tbl O c fields s (.setattr f v) hi htbl
-    | delitem f => exact immutable_step_state tbl O c fields s (.delitem f) hi htbl
+    | delitem f => exact hdel f
     | call f m => exact immutable_step_state tbl O c fields s (.call f m) hi htbl
 
 /-- … and neither does a mutator called on a wrapper reference the caller kept -/
-theorem immutable_stepR_state (bound : Bool) (tbl : List MethodRec) (O : Oracles) (c : ClassOpts)
+theorem immutable_stepR_state (bound dh : Bool) (tbl : List MethodRec) (O : Oracles) (c : ClassOpts)
     (fields : List (String × FieldDecl)) (st : MState) (op : ROp)
     (hi : c.immutable = true) (htbl : GuardedTbl tbl = true) :
-    (stepR bound tbl O c fields st op).1.attrs = st.attrs := by
+    (stepR bound dh tbl O c fields st op).1.attrs = st.attrs := by
   cases op with
-  | plain o => simp only [stepR]; exact immutable_stepB_state bound tbl O c fields st.attrs o hi htbl
+  | plain o => simp only [stepR]; exact immutable_stepB_state bound dh tbl O c fields st.attrs o hi htbl
   | take f =>
     simp only [stepR]
     repeat' split
     all_goals rfl
+  | assignRef f i =>
+    simp only [stepR]
+    split
+    · rfl
+    · rename_i w _
+      split
+      · rfl
+      · show (setattrStep O c fields st.attrs f w.payload).1 = st.attrs
+        rw [setattr_immutable O c fields st.attrs f w.payload hi]
   | callRef i m =>
     simp only [stepR]
     split
@@ -318,14 +335,14 @@ theorem immutable_stepR_state (bound : Bool) (tbl : List MethodRec) (O : Oracles
 /-- **C04 (structures), every history**: assignment, deletion, every mutator of a field value, of a
     nested wrapper (either binding) and of a kept — possibly stale — wrapper reference: nothing
     changes an ImmutableStructure -/
-theorem immutable_runR_frozen (bound : Bool) (tbl : List MethodRec) (O : Oracles) (c : ClassOpts)
+theorem immutable_runR_frozen (bound dh : Bool) (tbl : List MethodRec) (O : Oracles) (c : ClassOpts)
     (fields : List (String × FieldDecl)) (hi : c.immutable = true) (htbl : GuardedTbl tbl = true) :
-    ∀ (ops : List ROp) (st : MState), (runR bound tbl O c fields st ops).1.attrs = st.attrs
+    ∀ (ops : List ROp) (st : MState), (runR bound dh tbl O c fields st ops).1.attrs = st.attrs
   | [], st => rfl
   | op :: rest, st => by
     simp only [runR]
-    rw [immutable_runR_frozen bound tbl O c fields hi htbl rest]
-    exact immutable_stepR_state bound tbl O c fields st op hi htbl
+    rw [immutable_runR_frozen bound dh tbl O c fields hi htbl rest]
+    exact immutable_stepR_state bound dh tbl O c fields st op hi htbl
 
 /-- every mutator row checks `_raise_if_immutable()` itself (needed for wrappers that do not reach
     the owning field's own check: scratch-bound nested wrappers) -/
@@ -381,11 +398,11 @@ theorem nestedBound_immField (O : Oracles) (c : ClassOpts) (fields : List (Strin
 
 /-- an immutable field keeps its value under EVERY operation (nested calls under either binding and
     kept references included), provided every mutator row is guarded -/
-theorem immField_stepR_frozen (bound : Bool) (tbl : List MethodRec) (O : Oracles) (c : ClassOpts)
+theorem immField_stepR_frozen (bound dh : Bool) (tbl : List MethodRec) (O : Oracles) (c : ClassOpts)
     (fields : List (String × FieldDecl)) (st : MState) (f : String) (w : PyVal) (op : ROp)
     (hf : c.immFields.contains f = true) (hfield : (lookup f fields).isSome = true)
     (hset : lookup f st.attrs = some w) (htbl : AllGuardedTbl tbl = true) :
-    lookup f (stepR bound tbl O c fields st op).1.attrs = some w := by
+    lookup f (stepR bound dh tbl O c fields st op).1.attrs = some w := by
   have hg : GuardedTbl tbl = true := by
     unfold GuardedTbl; rw [List.all_eq_true]; intro r hr
     have h1 : r.guarded = true := (List.all_eq_true.mp htbl) r hr
@@ -396,6 +413,15 @@ theorem immField_stepR_frozen (bound : Bool) (tbl : List MethodRec) (O : Oracles
     simp only [stepR]
     repeat' split
     all_goals exact hset
+  | assignRef g i =>
+    simp only [stepR]
+    split
+    · exact hset
+    · rename_i wr _
+      split
+      · exact hset
+      · show lookup f (setattrStep O c fields st.attrs g wr.payload).1 = some w
+        exact setattr_immField O c fields st.attrs f g wr.payload w hf hfield hset
   | callRef i m =>
     simp only [stepR]
     split
@@ -416,15 +442,22 @@ theorem immField_stepR_frozen (bound : Bool) (tbl : List MethodRec) (O : Oracles
     simp only [stepR]
     cases o with
     | setattr g v =>
-      have : stepB bound tbl O c fields st.attrs (.setattr g v) = setattrStep O c fields st.attrs g v := by
+      have : stepB bound dh tbl O c fields st.attrs (.setattr g v) = setattrStep O c fields st.attrs g v := by
         cases bound <;> rfl
       rw [this]; exact setattr_immField O c fields st.attrs f g v w hf hfield hset
     | delitem g =>
-      have : stepB bound tbl O c fields st.attrs (.delitem g) = delitemStep c st.attrs g := by
+      have : stepB bound dh tbl O c fields st.attrs (.delitem g) = delitemStepH dh O c st.attrs g := by
         cases bound <;> rfl
-      rw [this]; exact delitem_immField c st.attrs f g w hf hset
+      rw [this]
+      cases hres : delitemStepH dh O c st.attrs g with
+      | mk a o =>
+        rcases C03.delitemH_facts dh O c st.attrs a g o hres with h1 | h1
+        · have := delitem_immField c st.attrs f g w hf hset
+          rw [h1] at this; exact this
+        · show lookup f a = some w
+          rw [h1.2]; exact hset
     | call g m =>
-      have : stepB bound tbl O c fields st.attrs (.call g m) = step tbl O c fields st.attrs (.call g m) := by
+      have : stepB bound dh tbl O c fields st.attrs (.call g m) = step tbl O c fields st.attrs (.call g m) := by
         cases bound <;> rfl
       rw [this]
       exact immField_step_frozen tbl O c fields st.attrs f w (.call g m) hf hfield hset hg rfl
@@ -461,17 +494,17 @@ theorem immField_stepR_frozen (bound : Bool) (tbl : List MethodRec) (O : Oracles
         · exact hset
 
 /-- **C04 (fields), every history** -/
-theorem immField_runR_frozen (bound : Bool) (tbl : List MethodRec) (O : Oracles) (c : ClassOpts)
+theorem immField_runR_frozen (bound dh : Bool) (tbl : List MethodRec) (O : Oracles) (c : ClassOpts)
     (fields : List (String × FieldDecl)) (f : String) (w : PyVal)
     (hf : c.immFields.contains f = true) (hfield : (lookup f fields).isSome = true)
     (htbl : AllGuardedTbl tbl = true) :
     ∀ (ops : List ROp) (st : MState), lookup f st.attrs = some w →
-      lookup f (runR bound tbl O c fields st ops).1.attrs = some w
+      lookup f (runR bound dh tbl O c fields st ops).1.attrs = some w
   | [], st, hs => hs
   | op :: rest, st, hs => by
     simp only [runR]
-    exact immField_runR_frozen bound tbl O c fields f w hf hfield htbl rest _
-      (immField_stepR_frozen bound tbl O c fields st f w op hf hfield hs htbl)
+    exact immField_runR_frozen bound dh tbl O c fields f w hf hfield htbl rest _
+      (immField_stepR_frozen bound dh tbl O c fields st f w op hf hfield hs htbl)
 
 theorem tables_all_guarded : AllGuardedTbl Generated.wrappers = true := by decide
 
